@@ -59,7 +59,41 @@ func variant(g *sqlh.Gen, seed Case) Case {
 	if t == nil || len(c.Contents) == 0 {
 		return genCase(g)
 	}
+	for len(c.Callers) < len(c.Filters) {
+		c.Callers = append(c.Callers, Caller{})
+	}
+	c.Callers = c.Callers[:len(c.Filters)]
 	for n := 1 + g.R.Intn(2); n > 0; n-- {
+		if g.R.Chance(25) && len(c.Filters) > 0 { // another method / other options for one caller
+			i := g.R.Intn(len(c.Callers))
+			switch g.R.Intn(5) {
+			case 0:
+				c.Callers[i].Kind = []string{"", "queryrow", "fullscan"}[g.R.Intn(3)]
+			case 1:
+				c.Callers[i].Opts = nil
+			case 2:
+				if o := c.Callers[i].Opts; o != nil {
+					oo := *o
+					switch g.R.Intn(4) {
+					case 0:
+						oo.Limit = g.R.Intn(3)
+					case 1:
+						oo.OrderBy = []string{"", "id", "id DESC"}[g.R.Intn(3)]
+					case 2:
+						oo.AllowNoIndex = !oo.AllowNoIndex
+					default:
+						oo.ForUpdate = !oo.ForUpdate
+					}
+					c.Callers[i].Opts = &oo
+					break
+				}
+				fallthrough
+			default:
+				o := *optsCatalogue[g.R.Intn(len(optsCatalogue))]
+				c.Callers[i].Opts = &o
+			}
+			continue
+		}
 		switch k := g.R.Intn(20); {
 		case k < 8 && len(c.Filters) > 0: // one filter value
 			i := g.R.Intn(len(c.Filters))
@@ -91,12 +125,15 @@ func variant(g *sqlh.Gen, seed Case) Case {
 				}
 			}
 			c.Filters = append(c.Filters, f)
+			c.Callers = append(c.Callers, genCaller(g))
 		case k < 14 && len(c.Filters) > 2:
 			i := g.R.Intn(len(c.Filters))
 			c.Filters = append(c.Filters[:i], c.Filters[i+1:]...)
+			c.Callers = append(c.Callers[:i], c.Callers[i+1:]...)
 		case k < 15 && len(c.Filters) > 1:
 			i, j := g.R.Intn(len(c.Filters)), g.R.Intn(len(c.Filters))
 			c.Filters[i], c.Filters[j] = c.Filters[j], c.Filters[i]
+			c.Callers[i], c.Callers[j] = c.Callers[j], c.Callers[i]
 		case k < 19: // one stored value
 			ri, ci := g.R.Intn(len(c.Contents)), g.R.Intn(len(t.Cols))
 			col := &t.Cols[ci]
